@@ -101,6 +101,10 @@ MOD_RANGE = {"temp": (5.0, 45.0), "pH": (5.0, 9.0), "mass_water": (0.5, 2.0), "c
              "thickness": (1e-9, 1e-7), "grams": (0.5, 5.0), "volume": (0.5, 5.0), "total_p": (0.1, 5.0), "a0": (0.0, 1.0),
              "m": (1e-4, 1.0), "step_divide": (1, 10), "cvode_steps": (10, 200), "tol": (1e-10, 1e-6),
              "steps": (1e-5, 1e-2), "count_steps": (1, 4), "temps": (10.0, 60.0), "pressures": (1.0, 20.0), "count": (1, 4)}
+# lists the dump itself labels "workspace variables" / derived ("List of all elements in phases"): a *_MODIFY re-tidies the entry
+# and recomputes them (e.g. -eltList after EQUILIBRIUM_PHASES_MIX had scaled it); they are not quantities of the content
+WORKSPACE = {"EQUILIBRIUM_PHASES": ["/eltList", "/assemblage_totals"], "EXCHANGE": ["/totals"], "SURFACE": ["/totals"],
+             "SOLID_SOLUTIONS": ["/SSassemblage_totals"], "GAS_PHASE": ["/totals"], "KINETICS": ["/totals"]}
 INT_FIELDS = {"exchange_gammas", "step_divide", "cvode_steps", "count_steps", "count"}
 
 
@@ -138,7 +142,7 @@ def attrs_of(d):
     """what the generator has to remember about a definition (type compatibility of later *_MIX, usable mixes)"""
     k, p = d["kind"], d.get("p", {})
     if k == "MIX":
-        return {"refs": sorted({int(s) for s, f in p["parts"]})}
+        return {"refs": sorted({int(s) for s, f in p["parts"]}), "parts": [[int(s), float(f)] for s, f in p["parts"]]}
     if k == "GAS_PHASE":
         return {"gtype": p["type"]}
     if k == "SURFACE":
@@ -230,6 +234,7 @@ class Model(object):
                     flags.add("absent_number")
                 if eff[k] < 0:
                     raise OutOfDomain("USE negative")
+        cid_at_reaction = dict(cid)
         runs = ("SOLUTION" in eff or "MIX" in eff) and any(k in eff for k in KINDS if k != "SOLUTION")
         expect_error = False
         if runs:
@@ -259,6 +264,7 @@ class Model(object):
                     if k not in SAVEABLE or (k != "SOLUTION" and k not in used):
                         raise OutOfDomain("SAVE of a kind outside the system")
                     t = tag("save")
+                    last_save_tag = t
                     src_attrs = info[k][used[k]] if k in used else {}
                     for i in range(a1, b1 + 1):
                         info[k][i] = _copy.deepcopy(src_attrs)
@@ -267,7 +273,8 @@ class Model(object):
                     if b1 > a1:
                         flags.add("save_range")
                     if k == "SOLUTION" and "MIX" in used and set(used) == {"MIX"}:
-                        checks.append({"c": "mixcons", "mix": used["MIX"], "a": a1, "b": b1})
+                        checks.append({"c": "mixcons", "mix": used["MIX"], "a": a1, "b": b1, "tag": last_save_tag,
+                                       "parts": [[s, f, list(cid_at_reaction[("SOLUTION", s)])] for s, f in info["MIX"][used["MIX"]]["parts"]]})
                 if "KINETICS" in used:
                     cid[("KINETICS", used["KINETICS"])] = ("N", tag("kin"))
                     flags.add("kinetics_autosave")
@@ -278,7 +285,8 @@ class Model(object):
                 if k not in SAVEABLE or num(a) < 0:
                     raise OutOfDomain("SAVE")
         if expect_error:
-            return {"expect": {k: ("P",) + k for k in self.keys()}, "expect_error": True, "checks": [], "flags": flags}
+            return {"expect": {k: ("P",) + k for k in self.keys()}, "hidden": {k: ("P",) + k for k in self.keys(True) if k[1] < 0},
+                    "expect_error": True, "checks": [], "flags": flags, "eq_solutions": []}
         # ---- C: RUN_CELLS
         cells = op.get("run_cells") or []
         if cells:
@@ -315,9 +323,9 @@ class Model(object):
             for key in ("gtype", "stype"):
                 if len({info[k][s].get(key) for s in srcs}) > 1:
                     raise OutOfDomain("mixing different types")
-            checks.append({"c": "mixlin", "kind": k, "a": a, "b": b,
-                           "parts": [[s, f, list(cid[(k, s)])] for s, f in mk["parts"]]})
             t = tag("mixkw")
+            checks.append({"c": "mixlin", "kind": k, "a": a, "b": b, "tag": t,
+                           "parts": [[s, f, list(cid[(k, s)])] for s, f in mk["parts"]]})
             at = _copy.deepcopy(info[k][srcs[0]])
             for i in range(a, b + 1):
                 info[k][i] = _copy.deepcopy(at)
@@ -377,7 +385,9 @@ class Model(object):
                         if n < 0:
                             flags.add("negative")
         self.m = info
-        return {"expect": {k: cid[k] for k in cid if k[1] >= 0}, "expect_error": False, "checks": checks, "flags": flags}
+        eq = sorted({int(d["p"]["eq"]) for d in op.get("defs", []) if d.get("p", {}).get("eq") is not None})
+        return {"expect": {k: cid[k] for k in cid if k[1] >= 0}, "hidden": {k: cid[k] for k in cid if k[1] < 0},
+                "expect_error": False, "checks": checks, "flags": flags, "eq_solutions": eq}
 
 
 # ----------------------------------------------------------------------------------------------- rendering
@@ -536,7 +546,8 @@ def mod_plan(md, ent):
     """-> dict(lines, path, allowed, value, excluded)"""
     r = mod_target(md, ent)
     # `-new_def` is an internal flag that every RAW reader clears (dump comment: "candidates with new_def=true")
-    return {"lines": r[0], "path": r[1], "allowed": list(r[2]) + ["/new_def"], "value": r[3], "excluded": len(r) > 4}
+    return {"lines": r[0], "path": r[1], "allowed": list(r[2]) + ["/new_def"] + WORKSPACE.get(md["kind"], []), "value": r[3],
+            "excluded": len(r) > 4}
 
 
 def render_mod(md, ent):
@@ -944,8 +955,8 @@ def op_seed(draw, M):
     return {"defs": defs, "react": _copy.deepcopy(PURE)}
 
 
-OPS = ["define", "define", "define", "react", "react", "react", "copy", "copy", "copy", "copy", "delete", "delete", "delete",
-       "modify", "modify", "mixkw", "run_cells", "run_cells", "use_missing", "save_noop", "hidden"]
+OPS = ["define", "define", "define", "react", "react", "react", "copy", "copy", "copy", "copy", "copy", "delete", "delete", "delete",
+       "delete", "modify", "modify", "mixkw", "run_cells", "run_cells", "use_missing", "save_noop", "hidden"]
 
 
 @st.composite
@@ -973,7 +984,7 @@ def next_op(draw, M):
 
 
 @st.composite
-def history(draw, min_ops=4, max_ops=12):
+def history(draw, min_ops=5, max_ops=13):
     M = Model()
     ops = []
     excluded = 0
